@@ -82,10 +82,19 @@ def logSafe (a b : CExpr) (ca cb : CE) : Bool :=
   (if isNotLog a || isNotLog b then ca.ty.eqv cb.ty && (normTy a ca).ty.eqv (normTy b cb).ty
    else castOpsSafe ca cb)
 
+/-- constant-condition `?:`: the code returns the LIVE arm as it is (`first`: the first arm is the live one), C converts it
+    to the common type of the two promoted arms.  Nothing is dropped when both arms are at least `int` wide (no
+    promotion) and `c11_cast` leaves width and sign of the live arm alone — the type the code gives the result (the live
+    arm's own) IS the common type.  Arms of equal type are the special case `c11_cast a b = (a, b)`
+    (`liveKeepsTy_of_eqv`).  Not covered: `1 ? RsV : 1ULL` (live `int32_t`, common type `uint64_t`). -/
+def liveKeepsTy (first : Bool) (ca cb : CE) : Bool :=
+  decide (32 ≤ ca.ty.width) && decide (32 ≤ cb.ty.width) &&
+  (if first then (VT.c11Cast ca.ty cb.ty).1.eqv ca.ty else (VT.c11Cast ca.ty cb.ty).2.eqv cb.ty)
+
 def ternSafe (c : CExpr) (cc ca cb : CE) : Bool :=
   match cc.kind with
-  | .lit _ => decide (32 ≤ ca.ty.width) && decide (32 ≤ cb.ty.width) && ca.ty.eqv cb.ty
-  | .boolLit _ => decide (32 ≤ ca.ty.width) && decide (32 ≤ cb.ty.width) && ca.ty.eqv cb.ty
+  | .lit v => liveKeepsTy (v != 0) ca cb
+  | .boolLit r => liveKeepsTy r ca cb
   | _ => condSafe c cc && wideSafe ca cb
 
 /-- run `f` on the code's result for a sub-expression (a compile error is the same error in both lowerings) -/
